@@ -192,7 +192,7 @@ def lean_prepare(prop_id, extra_modules=(), thorough=False, log=print, prebuild=
         st.bad.append('no property theorems found for ' + prop_id)
         return st
     # source hygiene on the whole development (comments stripped)
-    for f in import_cone(['Mistletoe.Props.' + prop_id] + list(extra_modules) + ['Main']):
+    for f in import_cone(['Mistletoe.Props.' + prop_id] + list(extra_modules) + ['Main'] + (['PropsMain'] if 'propsdriver' in extra_modules else [])):
         m = FORBIDDEN.search(strip_lean_comments(f.read_text()))
         if m:
             st.bad.append('forbidden construct %r in %s' % (m.group(0).strip(), f.relative_to(LEAN)))
@@ -250,13 +250,18 @@ def lean_prepare_driver_only(log=print):
     return st
 
 
-def driver_batch(requests, timeout=1800):
+PROPS_DRIVER = LEAN / '.lake' / 'build' / 'bin' / 'propsdriver'
+
+
+def driver_batch(requests, timeout=1800, binary=None):
     """Run the native model driver on a list of request dicts; returns the list of replies
-    (the value under "ok", or {"error": …})."""
+    (the value under "ok", or {"error": …}).  `binary=PROPS_DRIVER` selects the second driver, which
+    evaluates the executable hypotheses of property theorems (lean/PropsMain.lean)."""
     if not requests:
         return []
+    DRIVER = binary or globals()['DRIVER']
     if not DRIVER.exists():
-        raise MachineryError('driver binary missing')
+        raise MachineryError('driver binary missing: %s' % DRIVER)
     data = '\n'.join(json.dumps(r, ensure_ascii=False) for r in requests) + '\n'
     p = subprocess.run([str(DRIVER)], input=data.encode('utf-8', 'surrogatepass'),
                        stdout=subprocess.PIPE, stderr=subprocess.PIPE, timeout=timeout)
